@@ -25,6 +25,7 @@ import (
 	"strings"
 	"sync"
 	"testing"
+	"time"
 
 	"pgregory.net/rapid"
 )
@@ -128,6 +129,7 @@ type runner[C any] struct {
 	mu      sync.Mutex
 	fuzz    bool
 	sinceFl int
+	lastFl  time.Time
 }
 
 func envInt(name string, def int64) int64 {
@@ -266,9 +268,11 @@ func (r *runner[C]) eval(c C) (fail string) {
 		}
 	}
 	if r.fuzz {
+		// reporting only (never a verdict): flush the counters of this worker process now and then
 		r.sinceFl++
-		if r.sinceFl >= 2000 {
+		if r.sinceFl >= 2000 || time.Since(r.lastFl) > 2*time.Second {
 			r.sinceFl = 0
+			r.lastFl = time.Now()
 			r.flush(false)
 		}
 	}
@@ -497,6 +501,32 @@ func Fuzz[C any](f *testing.F, p *Prop[C]) {
 	r := newRunner(p)
 	r.fuzz = true
 	r.phase = "fuzz"
+	// Seeds: rapid.MakeFuzz reads its draws from the fuzz input; the fuzzer's own initial
+	// inputs are too short for any structured generator, so long deterministic byte
+	// strings of several textures are provided for it to mutate.
+	for i := 0; i < 24; i++ {
+		n := []int{512, 2048, 8192}[i%3]
+		b := make([]byte, n)
+		x := uint64(i+1) * 0x9e3779b97f4a7c15
+		for j := range b {
+			x = splitmix(x)
+			switch i % 4 {
+			case 0:
+				b[j] = byte(x)
+			case 1:
+				b[j] = byte(x) & 0x0f // small draws: short collections, first alternatives
+			case 2:
+				b[j] = byte(x) | 0xc0 // large draws
+			default:
+				if j%8 < 7 {
+					b[j] = 0
+				} else {
+					b[j] = byte(x)
+				}
+			}
+		}
+		f.Add(b)
+	}
 	f.Fuzz(rapid.MakeFuzz(func(rt *rapid.T) {
 		c := p.Gen(rt)
 		if msg := r.eval(c); msg != "" {
